@@ -88,15 +88,15 @@ def _collect(tmp: Path, rc, t0, timed_out=False):
 
 
 def run_fork(project: Path, args, env: dict | None = None, stdin: bytes = b"", timeout: float = 120,
-             cwd: Path | None = None, child_setup=None) -> dict:
+             cwd: Path | None = None, child_setup=None, tty: bool | None = None) -> dict:
     """One real session in a forked child.  `args` are the user's arguments (e.g. --inline-snapshot=fix)."""
     tmp = Path(tempfile.mkdtemp(prefix="verif_sess_"))
     t0 = time.time()
     full_env = base_env(env)
     full_env["VERIF_SESSION_FILE"] = str(tmp / "session.json")
     full_env["VERIF_REC_FILE"] = str(tmp / "rec.json")
-    if stdin:
-        full_env.setdefault("FORCE_COLOR", "true")
+    if tty is True or (tty is None and stdin):
+        full_env.setdefault("FORCE_COLOR", "true")     # makes rich's Console.is_terminal true (as the repo's tests do)
     (tmp / "stdin").write_bytes(stdin)
     pid = os.fork()
     if pid == 0:
